@@ -231,12 +231,13 @@ const A_DRAIN: usize = 5;
 const A_SPURIOUS: usize = 6;
 
 impl C08 {
-    fn gen_script(t: &mut Tape, src: &VersionedSource, cfg: &Cfg, kind: RunKind) -> Vec<Unit> {
+    fn gen_script(t: &mut Tape, src: &VersionedSource, cfg: &Cfg, kind: RunKind, tier: Tier) -> Vec<Unit> {
         let v = cfg.version;
         let cur = src.current_state();
         let mut units = Vec::new();
         let n = match kind {
             RunKind::Sweep(_) => 1,
+            RunKind::Random if tier == Tier::Thorough => 1 + t.weighted(&[3, 3, 2, 1, 1, 1, 1, 1, 1, 1, 1, 1]),
             RunKind::Random => 1 + t.weighted(&[3, 3, 2, 1, 1, 1]),
         };
         for _ in 0..n {
@@ -298,6 +299,7 @@ impl C08 {
     async fn run_async(
         &self,
         kind: RunKind,
+        tier: Tier,
         ctx: Arc<SimCtx>,
         counters: &mut Counters,
         out: &mut RunOut,
@@ -346,7 +348,7 @@ impl C08 {
 
         let mut units = {
             let mut t = ctx.tape.lock().unwrap();
-            Self::gen_script(&mut t, &source, &cfg, kind)
+            Self::gen_script(&mut t, &source, &cfg, kind, tier)
         };
         if first_version_too_new {
             let v = 3 + ctx.choose(250) as u8;
@@ -438,7 +440,7 @@ impl C08 {
             let mut steps = 0;
             loop {
                 steps += 1;
-                if steps > 400 {
+                if steps > if tier == Tier::Thorough { 1500 } else { 400 } {
                     break;
                 }
                 let a = ctx.weighted(&weights);
@@ -797,13 +799,13 @@ impl Scenario for C08 {
         match tier { Tier::Quick => 2_000_000, Tier::Thorough => 100_000_000 }
     }
 
-    fn run(&self, kind: RunKind, tape: Tape, log: bool) -> (RunOut, Tape) {
+    fn run(&self, kind: RunKind, tier: Tier, tape: Tape, log: bool) -> (RunOut, Tape) {
         let _ = take_panics();
         let ctx = Arc::new(SimCtx::new(tape, log, 2_000_000));
         let mut out = RunOut::default();
         let mut counters = Counters::default();
         let rt = paused_runtime();
-        let res = rt.block_on(self.run_async(kind, ctx.clone(), &mut counters, &mut out));
+        let res = rt.block_on(self.run_async(kind, tier, ctx.clone(), &mut counters, &mut out));
         drop(rt);
         out.violation = res.err();
         counters.merge(&ctx.counters.lock().unwrap());
